@@ -49,7 +49,9 @@ def specs(prop='C15'):
             self.of, self.rev = of, rev
 
         def _sym_truth(self):
-            return truth(cur().bool(cur().fresh_name('has_children')))
+            if not hasattr(self, '_nonempty'):      # one answer per children list, however often it is tested
+                self._nonempty = truth(cur().bool(cur().fresh_name('has_children')))
+            return self._nonempty
 
         def _sym_getitem(self, idx):
             if isinstance(idx, slice) and idx.start is None and idx.stop is None and idx.step == -1:
@@ -185,8 +187,170 @@ def specs(prop='C15'):
             ctx.prove(f'{pre}.push.order[{label}]', len(ev['pushed']) == 1 and isinstance(ch, Children) and
                       ch.rev == (not back), info='children are pushed reversed for a forward walk (stack pops the last)')
 
+    # -----------------------------------------------------------------------------------------------------------------
+    def select_loop(fnode, which):
+        """the inner `while stack:` of the on='leave' (which=0) / on='both' (which=1) part"""
+        for n in ast.walk(fnode):
+            if isinstance(n, ast.If) and ast.unparse(n.test) == 'is_leave' and n.body and isinstance(n.body[0], ast.While):
+                return (n.body if which == 0 else n.orelse)[0]
+        raise LookupError('cannot locate the leave / both loops of walk')
+
+    def run_lb(ctx, case, loc, pre, label):
+        """one iteration of the on='leave' / on='both' loop for an arbitrary stack top, which is either an AST to enter
+        (None / dead / live) or the FST of a node whose children were processed (to leave)"""
+        which = 0 if case['on'] == 'leave' else 1
+        loop = select_loop(loc.node, which)
+        recurse, back = case['recurse'], case['back']
+        ev = {'yields': [], 'pushed': [], 'delegated': [], 'filter_calls': [], 'resumes': 0, 'soc': []}
+        CLS = SObj('SomeClass', {})
+        FSTCLS = SObj('FSTclass', {})
+        kind = choose('top', 4)     # 0 None, 1 AST with dead .f, 2 live AST (entering), 3 FST (leaving)
+        fst_ = None
+        if kind == 0:
+            top = None
+        elif kind == 3:
+            a0 = SObj('A0', {}, **{'__class__': CLS}) if choose('leaving_alive', 2) == 0 else None
+            fst_ = SObj('F', {}, a=a0, __isfst=True)
+            top = fst_
+        else:
+            top = SObj('A0', {}, **{'__class__': CLS})
+            fst_ = SObj('F', {}, a=top, __isfst=True) if kind == 2 else None
+            top._set('f', fst_, count=False)
+        if fst_ is not None:
+            fst_._set('walk', lambda *a, **k: ('nested_walk', fst_, a, k), count=False)
+
+        class Stack:
+            def pop(self):
+                return top
+
+            def extend(self, x):
+                ev['pushed'].append(('children', x))
+
+            def append(self, x):
+                ev['pushed'].append(('node', x))
+
+            def _sym_truth(self):
+                return True
+        accept = []
+
+        def check_all_param(f):
+            ev['filter_calls'].append(f)
+            accept.append(truth(ctx.bool(ctx.fresh_name('filter_accepts'))))
+            return accept[-1]
+        sends = []
+
+        def on_yield(v):
+            rec = [v, fst_._get('a') if fst_ is not None else None, None]
+            ev['yields'].append(rec)
+            h = choose('heap', 3)
+            if fst_ is not None:
+                if h == 1:
+                    fst_._set('a', SObj(f'A{len(ev["yields"])}', {}, **{'__class__': CLS, 'f': fst_}), count=False)
+                elif h == 2:
+                    fst_._set('a', None, count=False)
+            ev['resumes'] += 1
+            if len([1 for y in ev['yields'] if y[2] is not None]) >= 2:
+                return None
+            sn = choose('sent', 3)
+            if sn == 0:
+                return None
+            rec[2] = (sn == 1)
+            sends.append(sn == 1)
+            return sn == 1
+
+        class Kids(Children):
+            def reverse(self):
+                self.rev = not self.rev
+
+        def soc(a):
+            ev['soc'].append((a, ev['resumes']))
+            return Kids(a)
+        it = Interp({'syntax_ordered_children': soc, 'fst': SObj('fst', {}, FST=FSTCLS)})
+        it.globals['isinstance'] = lambda o, t: (isinstance(o, SObj) and o._get('__isfst') is True) if t is FSTCLS else False
+        it.on_yield = on_yield
+        it.on_yield_from = lambda g: ev['delegated'].append(g)
+        env = Env()
+        env.vars.update(stack=Stack(), check_all_param=check_all_param, recurse=recurse, back=back, all=SObj('all', {}))
+        outcome = 'fallthrough'
+        try:
+            it.exec_block(loop.body, env)
+        except _Continue:
+            outcome = 'continue'
+        except (_Break, _Return):
+            outcome = 'left_loop'
+        ctx.notes['outcome'] = outcome
+        ctx.prove(f'{pre}.stays_in_loop[{label}]', outcome != 'left_loop')
+        walked = bool(ev['pushed'] or ev['delegated'])
+        if kind in (0, 1):
+            ctx.prove(f'{pre}.pop.skips_dead[{label}]', not ev['yields'] and not walked and not ev['filter_calls'])
+            return
+        ynodes = [(y[0][0] if isinstance(y[0], tuple) else y[0]) for y in ev['yields']]
+        ctx.prove(f'{pre}.yield.only_this_node[{label}]', all(n is fst_ for n in ynodes))
+        ctx.prove(f'{pre}.yield.alive_when_first_yielded[{label}]', all(y[1] is not None for y in ev['yields'][:1]),
+                  info='a node whose .a is None (deleted while its children were processed) is never yielded')
+        # yield phases: a leaving phase (flag True / on='leave') possibly followed, after send(True), by a re-entry phase
+        if case['on'] == 'both':
+            flags = [y[0][1] if isinstance(y[0], tuple) else None for y in ev['yields']]
+            ctx.prove(f'{pre}.yield.flag_says_entering_or_leaving[{label}]',
+                      None not in flags and (not flags or flags[0] is (kind == 3)),
+                      info='the first event of a popped FST is a leaving event, of a popped AST an entering event')
+            leave_phase = [y for y, fl in zip(ev['yields'], flags) if fl is True]
+            enter_phase = [y for y, fl in zip(ev['yields'], flags) if fl is False]
+            ctx.prove(f'{pre}.both.phases_in_order[{label}]', flags == [True] * len(leave_phase) + [False] * len(enter_phase))
+        else:
+            leave_phase, enter_phase = list(ev['yields']), []
+
+        def last_sent(phase):
+            vals = [y[2] for y in phase if y[2] is not None]
+            return vals[-1] if vals else None
+        cur_a = fst_._get('a')
+        kids_of = [x.of for t, x in ev['pushed'] if t == 'children']
+        ctx.prove(f'{pre}.children_from_current_ast[{label}]',
+                  all(a is not None and ((a is top and kind == 2) if at == 0 else a is cur_a) for a, at in ev['soc']),
+                  info='children are computed from the .a that is current when they are computed: the popped AST before any '
+                       'suspension, the re-read .a afterwards')
+        if kind == 3 and not ev['yields']:
+            ctx.prove(f'{pre}.leaving_dead_or_filtered_is_dropped[{label}]', not walked)
+        if leave_phase:
+            last = last_sent(leave_phase)
+            if last is not True:
+                ctx.prove(f'{pre}.leave.no_rewalk_without_send_true[{label}]', not walked and not enter_phase)
+            else:
+                ctx.prove(f'{pre}.leave.deleted_not_rewalked[{label}]', cur_a is not None or not walked)
+                if case['on'] == 'leave':
+                    ctx.prove(f'{pre}.leave.send_true_requeues_node_and_children[{label}]',
+                              cur_a is None or ('node', fst_) in ev['pushed'])
+                elif not recurse:
+                    ctx.prove(f'{pre}.both.leave.send_true_delegates[{label}]', cur_a is None or len(ev['delegated']) == 1)
+        if enter_phase:
+            last = last_sent(enter_phase)
+            ctx.prove(f'{pre}.both.enter.accepted_by_filter[{label}]', bool(accept) and accept[-1] is True)
+            ctx.prove(f'{pre}.both.enter.deleted_not_walked[{label}]', cur_a is not None or not walked)
+            if cur_a is not None:
+                ctx.prove(f'{pre}.both.enter.leave_event_queued[{label}]', ('node', fst_) in ev['pushed'],
+                          info='every entered node is queued to be yielded again on leaving')
+            if last is False:
+                ctx.prove(f'{pre}.both.enter.send_false_suppresses_children[{label}]', not kids_of and not ev['delegated'])
+            elif last is None:
+                ctx.prove(f'{pre}.both.enter.follows_recurse[{label}]', recurse or (not kids_of and not ev['delegated']))
+        if not ev['yields'] and kind == 2:
+            # entering, not yielded now: either deferred until the children are done (leave mode) or filtered out
+            if case['on'] == 'leave' and accept and accept[-1]:
+                ctx.prove(f'{pre}.leave.enter.deferred_behind_children[{label}]',
+                          [t for t, _ in ev['pushed']] == ['node', 'children'] and ev['pushed'][0][1] is fst_)
+            if accept and not accept[-1]:
+                ctx.prove(f'{pre}.filtered.not_queued_for_yield[{label}]', ('node', fst_) not in ev['pushed'])
+        for t, x in ev['pushed']:
+            if t == 'children':
+                ctx.prove(f'{pre}.push.order[{label}]', x.rev == (not back))
+
     cases = [dict(recurse=r, scope=s, back=b) for r in (True, False) for s in (True, False) for b in (True, False)]
-    return [Fragment('fst_traverse:walk', prop, 'walk.enter_iteration', cases, run, min_obligations=5,
+    cases_lb = [dict(on=o, recurse=r, back=b) for o in ('leave', 'both') for r in (True, False) for b in (True, False)]
+    return [Fragment('fst_traverse:walk', prop, 'walk.leave_both_iteration', cases_lb, run_lb, min_obligations=5,
+                     native=('k_walk', 'replay_walk'),
+                     notes="one iteration of the on='leave' and of the on='both' loop; stack top is an AST to enter or an FST to "
+                           "leave; heap havocked at each yield"),
+            Fragment('fst_traverse:walk', prop, 'walk.enter_iteration', cases, run, min_obligations=5,
                      native=('k_walk', 'replay_walk'),
                      notes="one iteration of the on='enter' loop; heap havocked at each yield; consumer may send twice")]
 
